@@ -20,7 +20,7 @@ func filterObs(obs []core.Ob, keep func(o core.Ob) bool) []core.Ob {
 
 func init() {
 	Props["C01"] = PropDef{
-		Explanation: "R-NOBUF call-graph reachability; T-ENDIAN / T-DISPATCH (+ clause consistency) / T-KIND / T-NATURAL / T-TAGWIDTH table extraction from syntax and SSA; T-BITFIELD bit-range disjointness; R-RAWREAD one-byte adapter; R-NOALIAS append ownership; T-KIND emptiness coverage; R-ORDER exact-before-fold; R-SIBLING list element tag; R-LENPREFIX payload on every path; R-REFLKIND zero Value. Decided: No read-ahead primitive is reachable from the decode entry points and the byte adapter delivers a byte only when one was read; fixed-width codecs are big-endian and move the width of their tag (clauses and width tables); tag dispatches are complete, self-consistent and reject unknown ids and bare TagEnd; the kind->tag mapping is the documented table, accepted back, and omitempty decides every encodable kind; the field-index cache does not alias and is keyed by exact names, which are asked before any case-insensitive match; every list element is written with the tag of the list header (or refused), an array payload is built on every path, no Type() of a possibly zero Value. Decoded values for arbitrary documents and struct-tag option parsing are not decided.",
+		Explanation: "R-NOBUF call-graph reachability; T-ENDIAN / T-DISPATCH (+ clause consistency) / T-KIND / T-NATURAL / T-TAGWIDTH table extraction from syntax and SSA; T-BITFIELD bit-range disjointness; R-RAWREAD one-byte adapter; R-NOALIAS append ownership; T-KIND emptiness coverage; R-ORDER exact-before-fold; R-SIBLING list element tag; R-LENPREFIX payload on every path; R-REFLKIND zero Value; R-REFLKIND set-exact-type; R-TRUNC length prefix; T-KIND array containers; R-MARSHALER wrapper and array tag. Decided: No read-ahead primitive is reachable from the decode entry points and the byte adapter delivers a byte only when one was read; fixed-width codecs are big-endian and move the width of their tag (clauses and width tables); tag dispatches are complete, self-consistent and reject unknown ids and bare TagEnd; the kind->tag mapping is the documented table, accepted back, and omitempty decides every encodable kind; the field-index cache does not alias and is keyed by exact names, which are asked before any case-insensitive match; every list element is written with the tag of the list header (or refused), an array payload is built on every path, no Type() of a possibly zero Value. Decoded values for arbitrary documents and struct-tag option parsing are not decided.",
 		Run: func(c *Ctx) []core.Ob {
 			obs := c.NoReadAhead()
 			obs = append(obs, c.Endian()...)
@@ -45,7 +45,7 @@ func init() {
 		},
 	}
 	Props["C02"] = PropDef{
-		Explanation: "R-REFLKIND kind-set refinement; T-KIND / T-NATURAL tables; R-NOMUT; R-MARSHALER; R-NOALIAS (append ownership, fresh element per iteration); T-TAGWIDTH; R-TRUNC copy-into-fixed; R-ORDER exact-before-fold; R-SIBLING list element tag; R-LENPREFIX payload on every path; R-REFLKIND zero Value; R-ESCAPE pass order. Decided: Encoding cannot panic in a reflect accessor for any kind the table routes to it (nor in Type() of a nil element), writes nothing through its input, every kind it accepts has an accepting decoder case, custom marshalers keep the stream aligned, decoded map/list elements and cached index paths do not share memory, headers are not cut to a fixed buffer, list elements carry the header's tag, exact field names win over case-insensitive matches. Value equality after the round trip is not decided.",
+		Explanation: "R-REFLKIND kind-set refinement; T-KIND / T-NATURAL tables; R-NOMUT; R-MARSHALER; R-NOALIAS (append ownership, fresh element per iteration); T-TAGWIDTH; R-TRUNC copy-into-fixed; R-ORDER exact-before-fold; R-SIBLING list element tag; R-LENPREFIX payload on every path; R-REFLKIND zero Value; R-ESCAPE pass order; R-REFLKIND set-exact-type; R-TRUNC length prefix; T-KIND array containers; R-MARSHALER wrapper and array tag. Decided: Encoding cannot panic in a reflect accessor for any kind the table routes to it (nor in Type() of a nil element), writes nothing through its input, every kind it accepts has an accepting decoder case, custom marshalers keep the stream aligned, decoded map/list elements and cached index paths do not share memory, headers are not cut to a fixed buffer, list elements carry the header's tag, exact field names win over case-insensitive matches. Value equality after the round trip is not decided.",
 		Run: func(c *Ctx) []core.Ob {
 			obs := c.ReflKind()
 			obs = append(obs, c.KindTables()...)
@@ -69,7 +69,7 @@ func init() {
 		},
 	}
 	Props["C04"] = PropDef{
-		Explanation: "T-SNBTSUF writer tables vs parser classifier; T-DISPATCH; T-SCANSTATE detour states; R-TRUNC rune-to-byte; R-GUARD string indexes; R-PANIC; R-TLG loop bounds; T-SNBT float format ('f', -1), print range against the parser's width (R-TLG interval), bare-string decisions, text through the literal parser; T-SCANSTATE delegated skip-space; R-ORDER text entry checks end of input; R-ESCAPE pass order. Decided: What the text writer emits for each tag is classified back to the same tag: suffix tables, array prefixes, integers inside the signed range their parser accepts, floats in the shortest exact decimal without exponent, strings left bare only where emptiness and number-likeness were decided, escapes written in one pass; escape states of the scanner return to the string state they left and a delegated end-of-value state makes itself current across blanks; input text becomes a string only where the literal parser has classified it; the text entry point reports success only after the end of the input was checked; quoting decisions look at bytes, not truncated runes; no unguarded index into a possibly empty string; no untriaged explicit panic reachable from text input. The scanner's accepted language as a whole is not decided.",
+		Explanation: "T-SNBTSUF writer tables vs parser classifier; T-DISPATCH; T-SCANSTATE detour states; R-TRUNC rune-to-byte; R-GUARD string indexes; R-PANIC; R-TLG loop bounds; T-SNBT float format ('f', -1), print range against the parser's width (R-TLG interval), bare-string decisions, text through the literal parser; T-SCANSTATE delegated skip-space; R-ORDER text entry checks end of input; R-ESCAPE pass order; T-SNBT suffix strip and written tag (R-TLG case splits); T-SCANSTATE literal-after-begin and escape set. Decided: What the text writer emits for each tag is classified back to the same tag: suffix tables, array prefixes, integers inside the signed range their parser accepts, floats in the shortest exact decimal without exponent, strings left bare only where emptiness and number-likeness were decided, escapes written in one pass; escape states of the scanner return to the string state they left and a delegated end-of-value state makes itself current across blanks; input text becomes a string only where the literal parser has classified it; the text entry point reports success only after the end of the input was checked; quoting decisions look at bytes, not truncated runes; no unguarded index into a possibly empty string; no untriaged explicit panic reachable from text input. The scanner's accepted language as a whole is not decided.",
 		Run: func(c *Ctx) []core.Ob {
 			obs := c.SNBTSuffix()
 			obs = append(obs, c.SNBTLiteralWidths()...)
@@ -129,7 +129,7 @@ func init() {
 		},
 	}
 	Props["C11"] = PropDef{
-		Explanation: "R-GUARD range facts proven by the R-TLG interpreter at every access of the packed data; R-ORDER for Fix / NewBitStorage / ReadFrom exact length; T-BSINV inverse of the size function; R-WIRESYM/R-TLG for the wire form; T-BSFIX every width-derived field refreshed by Fix; R-ACCEPT announced length admits a 4096x32-bit array; T-BSINV direct width (registry size read from the tree) and width-from-saved-longs. Decided: Rejected calls cannot have modified storage, zero-width storages return before dividing, wrong raw lengths are refused, ReadFrom gives the array exactly the announced length and refuses no length a 4096-entry storage can have, Fix re-assigns every scalar field the constructor derives from the width, the width recovered from a raw length packs as many values per long as the width it was sized for and is exact for the direct width (two known findings). The index arithmetic itself is not decided.",
+		Explanation: "R-GUARD range facts proven by the R-TLG interpreter at every access of the packed data; R-ORDER for Fix / NewBitStorage / ReadFrom exact length; T-BSINV inverse of the size function; R-WIRESYM/R-TLG for the wire form; T-BSFIX every width-derived field refreshed by Fix; R-ACCEPT announced length admits a 4096x32-bit array; T-BSINV direct width (registry size read from the tree) and width-from-saved-longs; R-ORDER a refused Fix changes nothing. Decided: Rejected calls cannot have modified storage, zero-width storages return before dividing, wrong raw lengths are refused, ReadFrom gives the array exactly the announced length and refuses no length a 4096-entry storage can have, Fix re-assigns every scalar field the constructor derives from the width, the width recovered from a raw length packs as many values per long as the width it was sized for and is exact for the direct width (two known findings). The index arithmetic itself is not decided.",
 		Run: func(c *Ctx) []core.Ob {
 			obs := c.BitStorageGuards()
 			obs = append(obs, c.BitStorageFixSibling()...)
